@@ -54,6 +54,16 @@ type WireCfg struct {
 	Aspects  map[string]bool `json:"aspects"` // valid: boundary cuts decode to the documented content (C07); trunc/unknown/mismatch/missing: C08
 }
 
+const traceWireCfg = `INIT TraceInit
+NEXT TraceNext
+CONSTANTS
+  Q = 64
+  Alphabet = {}
+  MaxBlocks = 0
+INVARIANTS EncodingMeansContent
+CHECK_DEADLOCK FALSE
+`
+
 var wireUnknownFlags = []byte{wfFlag(wfTypeFeature, 2), wfFlag(wfTypeMapping, 5), wfFlag(wfTypeNegative, 4)}
 
 func (wc *WireCfg) env() *wireEnv {
@@ -485,15 +495,7 @@ func (c *Ctx) runWireProducer(n int, purpose string) {
 	}
 	w.Flush()
 	f.Close()
-	cfg := `INIT TraceInit
-NEXT TraceNext
-CONSTANTS
-  Q = 64
-  Alphabet = {}
-  MaxBlocks = 0
-INVARIANTS EncodingMeansContent
-CHECK_DEADLOCK FALSE
-`
+	cfg := traceWireCfg
 	res := c.runTLC(TLCOpts{Module: "Trace_Wire", Cfg: cfg, Purpose: "producer " + purpose, Workers: 1, Env: []string{"VERIF_TRACE=" + path}, Timeout: 30 * time.Minute,
 		Constants: fmt.Sprintf("%d real encodings, Q=64", lines)})
 	if res.Violated != "" {
